@@ -657,7 +657,16 @@ class Registry:
         brk('%s: capturing lambda' % fe.f.get('name'))
 
     def new_expr(self, fe, n):
-        brk('%s: new' % fe.f.get('name'))
+        # new T(args): a fresh heap object initialised by the (extracted) constructor; allocation never fails (bad_alloc is not modelled)
+        inner = [c for c in n.get('inner', []) if c.get('kind') in ('CXXConstructExpr', 'InitListExpr', 'ExprWithCleanups')]
+        if n.get('isArray') or len(inner) != 1:
+            brk('%s: new of this form' % fe.f.get('name'))
+        pt = fe.ty(n)
+        if pt.kind != 'ptr':
+            brk('%s: new of non-pointer type' % fe.f.get('name'))
+        ct = fe.em.ctype(pt.inner)
+        fe.em.dropped.add('std::bad_alloc of operator new (allocation is assumed to succeed)')
+        return '({ %s *xt_np = malloc(sizeof(%s)); __CPROVER_assume(xt_np != 0); *xt_np = %s; xt_np; })' % (ct, ct, fe.expr(inner[0]))
 
     def delete_expr(self, fe, n):
         brk('%s: delete' % fe.f.get('name'))
